@@ -45,12 +45,19 @@ func (l *Lz4) Compress(data []byte) ([]byte, error) {
 }
 
 func (l *Lz4) Decompress(in []byte) ([]byte, error) {
-	out := make([]byte, 100*len(in))
-	n, err := lz4.UncompressBlock(in, out)
-	if err != nil {
-		return nil, err
+	// the block does not say how long the data is; lz4 cannot shrink anything below 1/255 of its length
+	size := 100*len(in) + 64
+	for {
+		out := make([]byte, size)
+		n, err := lz4.UncompressBlock(in, out)
+		if err == nil {
+			return out[:n], nil
+		}
+		if err != lz4.ErrInvalidSourceShortBuffer || size > 255*len(in)+64 {
+			return nil, err
+		}
+		size *= 2
 	}
-	return out[:n], nil
 }
 
 func (l *Lz4) GetCompressorType() CompressorType {
